@@ -131,6 +131,9 @@ def verify(code=None, filename=DEFAULT_STUDENT_FILENAME, report=MAIN_REPORT,
         source_file_not_found(filename, None, enhance=enhance, report=report, muted=muted)
         report[TOOL_NAME]['success'] = False
         return False
+    # Which text the stored tree and success flag are about (other tools
+    # reuse them only for that text)
+    report[TOOL_NAME]['verified_code'] = code
     if code.strip() == '':
         blank_source(enhance=enhance, report=report, muted=muted)
         report[TOOL_NAME]['success'] = False
